@@ -526,12 +526,18 @@ macro_rules! impl_io_uring {
                 $($arg: $arg_type),*
             ) -> std::io::Result<Arc<(Mutex<Option<c_longlong>>, Condvar)>> {
                 let token = EventLoop::token(SyscallName::$syscall);
-                self.operator.$syscall(token, $($arg, )*)?;
+                // the waiter must be registered before the request is handed to the ring: the
+                // caller may be another thread than the one that reaps completions, and a
+                // completion that finds no entry under its token is dropped
                 let arc = Arc::new((Mutex::new(None), Condvar::new()));
                 assert!(
                     self.syscall_wait_table.insert(token, arc.clone()).is_none(),
                     "The previous token was not retrieved in a timely manner"
                 );
+                if let Err(e) = self.operator.$syscall(token, $($arg, )*) {
+                    _ = self.syscall_wait_table.remove(&token);
+                    return Err(e);
+                }
                 Ok(arc)
             }
         }
